@@ -31,6 +31,10 @@ type Case struct {
 // prin1 calls the oracle ties ~A / ~S to run inside the same bindings.
 var curBind string
 
+func baseBound() bool {
+	return strings.Contains(curBind, "*print-base*") || strings.Contains(curBind, "*print-radix*")
+}
+
 func withBind(src string) string {
 	if curBind == "" {
 		return src
@@ -287,7 +291,7 @@ func variants(ctl string, args []ref.Val) []string {
 	var outs []string
 	seen := map[string]bool{}
 	for m := 0; m < 16; m++ {
-		o := ref.Opts{FreshAtStart: m&1 != 0, TabStopStay: m&2 != 0, SpaceHyphen: m&4 != 0, Negative: m&8 != 0}
+		o := ref.Opts{FreshAtStart: m&1 != 0, TabStopStay: m&2 != 0, SpaceHyphen: m&4 != 0, Negative: m&8 != 0, BaseBound: baseBound()}
 		t, _, err := ref.Render(ctl, args, thePrinter, o)
 		if err != nil || seen[t] {
 			continue
@@ -306,7 +310,7 @@ func judge(ctl string, args []ref.Val) verdict {
 	if badObject(args) {
 		return verdict{kind: "unjudged", reason: "object-source-error"}
 	}
-	want, used, err := ref.Render(ctl, args, thePrinter, ref.Opts{Trace: judgeTrace})
+	want, used, err := ref.Render(ctl, args, thePrinter, ref.Opts{Trace: judgeTrace, BaseBound: baseBound()})
 	if err != nil {
 		re, _ := err.(*ref.Error)
 		return verdict{kind: "unjudged", reason: re.Kind, wantErr: re}
@@ -596,12 +600,21 @@ func coverDirs(x *fw.Ctx, dirs []*ref.Dir, depth int) {
 			switch p.Kind {
 			case 'v':
 				x.Cover("param:v")
+				if p.C == 'V' {
+					x.Cover("param:V-upper-case")
+				}
 			case '#':
 				x.Cover("param:#")
 			case 'c':
 				x.Cover("param:quoted-char")
+				if strings.ContainsRune(brokenQuoted, p.C) {
+					x.Cover("param:quoted-special-char") // one of $%&()*,/:<=>?@[]^{|}~ or a directive letter
+				}
 			case 'n':
 				x.Cover(fmt.Sprintf("param:int@%d", i))
+				if p.Plus {
+					x.Cover("param:+signed")
+				}
 			}
 		}
 		if 0 < len(d.Clauses) {
@@ -800,13 +813,12 @@ func englishRandomCount(tier string) int {
 	return 8000
 }
 
-// englishRandom: a number below 10^66 built group by group. Most are built
-// to stay out of the known-broken classes (no group X0 with X >= 2, lowest
-// group not 000, ordinals not ending in hundred), so that apart from the
-// 'quantillion' spelling every scale word and every group is monitored.
+// englishRandom: a number below 10^66 built group by group; one group in six
+// (not the outermost ones) is 000. (Until 7ccbe9e round tens, a lowest group of
+// 000 and ordinals ending in hundred were kept to a quarter of the cases.)
 func englishRandom(r *rand.Rand) Case {
 	ordinal := r.IntN(2) == 0
-	free := r.IntN(4) == 0
+	free := true
 	ngroups := 1 + r.IntN(22)
 	x := new(big.Int)
 	for g := ngroups - 1; 0 <= g; g-- {
@@ -914,7 +926,7 @@ func init() {
 			"a probe list that sweeps each directive's parameters (every printable ASCII pad character, ~T over colnum x colinc x column, ~C over characters, block nestings, ~[ shapes; " +
 			"sign x modifier x digit count 1..9 x comma interval for ~D ~B ~O ~X; every outer conditional kind x inner block kind x what follows; ~{ ~:{ ~@{ ~:@{ x limit x nested element shapes; " +
 			"~* with every modifier and parameter outside and inside iterations, ~?, ~( and ~[; ~? / ~@? given control strings that contain blocks; ~A/~S of floats, ratios, vectors, arrays, dotted lists, quote forms against princ/prin1). " +
-			"A parameter-mixture block: for ~A ~S (4 slots), ~D ~B ~O ~X (4), ~T (2), ~nR (5, sampled), ~% ~& ~~ ~* ~[ ~{ (1) every slot independently literal / omitted / v given a value / v given nil / # (integer slots), every mixture and order, " +
+			"A parameter-mixture block: for ~A ~S (4 slots), ~D ~B ~O ~X (4), ~T (2), ~nR (5), ~% ~& ~~ ~* ~[ ~{ (1) every slot independently literal / omitted / v given a value / v given nil / # (integer slots), every mixture and order, " +
 			"at top level and inside ~{ ~@{ ~:{ ~:@{ ~[ ~:[ ~@[ ~( ~? ~@? with 0..5 arguments left behind the directive (so # takes 0..9), and pairs of parameterised directives in a row. " +
 			"Printer variables (*print-base* -radix* -case* -escape* -length* -level* -array* -readably*, 22 bindings) bound around the call x object kinds x the forms of ~A/~S (tied to princ/prin1 under the same bindings) and the directives that must not move; " +
 			"boundary sizes: ~T and padding around the 80-space fill block and 160/240 columns, mincol/minpad/counts at 79..81, 255..257, 1023..1025, 4095..4097, 65535..65537, literal text and string arguments of those lengths, 0..1000 list elements / arguments / clauses, nesting to depth 12, integers to 2^4096; " +
@@ -922,7 +934,7 @@ func init() {
 			"On every case of the probe blocks and 1 in 8 of the rest the same control and arguments also go through (error ...) and (invalid-method-error ...), whose condition message must be the same text, and twice onto one stream with a failing format between the two calls. " +
 			"Then seeded compositions of up to 4 pieces, nested to depth 3, drawn from all directives of the property with literal, v and # parameters and every modifier (one directive in three draws every parameter slot independently from literal / omitted / v / nil v / #); 1 case in 12 of the clean stream runs under one of the printer-variable bindings; arguments are " +
 			"integers of every magnitude (fixnum/bignum boundary grid, up to 215 bits), strings (incl. ~ and quote characters), characters, symbols, lists of length 0..4 and nested lists, and other objects (floats, ratios, vectors, arrays, dotted lists, quote forms) for ~A/~S. " +
-			"1 case in 8 of the seeded part carries exactly one construct known to be broken on the pinned tree (dirty stream); the rest avoid all of them (clean stream). " +
+			"1 case in 8 of the seeded part carries exactly one of the 7 constructs still listed as open findings (dirty stream: ~^, ~T colinc / default column / inside blocks, ~& inside blocks, ~:( ~@( word boundaries, non-ASCII widths); the rest avoid them (clean stream); the 21 repaired constructs are generated freely. " +
 			"distinct = distinct (control, arguments); non-trivial = the oracle gives a text (legal control string with enough arguments of the right type)",
 		N:     nCases,
 		Gen:   gen,
